@@ -144,6 +144,8 @@ let rec count_regs (rs : reg list) : int * int * int * int * int =
       | RTL _ -> (s, b, t + 1, br, d)
       | RBarrier -> (s, b, t, br + 1, d)) (0, 0, 0, 0, 0) rs
 
+let last_meta : (string * (int * (string * string) list) list * string * int * string) option ref = ref None
+
 let check_line (line : string) : unit =
   match String.index_opt line '\t' with
   | None -> ()
@@ -168,6 +170,27 @@ let check_line (line : string) : unit =
       let oracle name lvl =
         incr n_oracle;
         Printf.printf "O %s L%d\t%s\n" name lvl case in
+      (* --- C19: metamorphic pairs: the REAL plan of the variant (systems renamed, resources relabelled injectively across
+         types and dynamic ids, access lists permuted / duplicated) must equal the REAL plan of the base program --- *)
+      (let head = match Str.bounded_split (Str.regexp_string " :: ") case 2 with h :: _ -> h | [] -> "" in
+       let meta = List.fold_left (fun acc t -> if String.length t > 5 && String.sub t 0 5 = "meta=" then String.sub t 5 (String.length t - 5) else acc) "" (split_on ' ' head) in
+       if meta <> "" then begin
+         let k = String.sub meta 0 (String.length meta - 1) and side = meta.[String.length meta - 1] in
+         let plan_of (o : obs) = List.map (fun (tag, rf) ->
+             (tag, List.filter (fun (f, _) -> List.mem f ["shape"; "order"; "tlorder"; "maxthr"; "tl"]) rf)) o.levels in
+         if side = 'a' then last_meta := Some (k, plan_of real, real.err, real.calls, case)
+         else begin
+           bump "metamorphic-pairs";
+           match !last_meta with
+           | Some (k0, pl, err0, calls0, case_a) when k0 = k ->
+               if pl <> plan_of real || calls0 <> real.calls || (err0 = "none") <> (real.err = "none") then begin
+                 incr n_oracle;
+                 (* the replay is the PAIR *)
+                 Printf.printf "O meta_same_plan L0\t%s ||| %s\n" case_a case
+               end
+           | _ -> ()
+         end
+       end);
       (* --- correspondence --- *)
       if model.calls <> real.calls then disagree "calls" 0 (string_of_int model.calls) (string_of_int real.calls);
       if model.err <> real.err then disagree "err" 0 model.err real.err;
